@@ -278,7 +278,10 @@ func scribble(x interface{}) { scribbleWith(x, true) }
 
 // lists = false: only the library's own setters are used (a sequence of public calls of the library), the
 // container/list values are left alone
-func scribbleWith(x interface{}, lists bool) {
+func scribbleWith(x interface{}, lists bool) { scribbleExcept(x, lists, nil) }
+
+// except: a type whose values are left alone (the chart, which is a view of its date object and not the caller's own)
+func scribbleExcept(x interface{}, lists bool, except reflect.Type) {
 	for _, r := range callZeroArg(x, nil) {
 		if r.panic || !r.val.IsValid() {
 			continue
@@ -287,7 +290,7 @@ func scribbleWith(x interface{}, lists bool) {
 		if v.Kind() == reflect.Interface && !v.IsNil() {
 			v = v.Elem()
 		}
-		if v.Kind() != reflect.Ptr || v.IsNil() {
+		if v.Kind() != reflect.Ptr || v.IsNil() || (except != nil && v.Type() == except) {
 			continue
 		}
 		if l, ok := v.Interface().(*list.List); ok {
